@@ -175,32 +175,44 @@ def factories(props=None):
     for inner, wrapper_free in (('_operation', ['class_function', 'metadata_extractor']),
                                 ('_intercept_output', ['alias', 'data_handler', 'fail_on_no_recorded_result', 'default_result_when_not_recorded', 'static_function']),
                                 ('_intercept_input', ['alias', 'alias_params_resolver', 'data_handler', 'capture_args', 'run_intercepted_when_missing', 'value_when_missing', 'fallback_aliases', 'static_function'])):
+      for as_property in ((False, True) if inner == '_intercept_input' else (False,)):
         repo, spec, ex, st, selfv, fr, node, info = setup(TR + inner, 'raw', wrapper_free); infos.append(info)
-        func = st.sym_obj('func', 'function')
+        if as_property:
+            # the decorator applied on top of @property: the wrapped callable is the descriptor's getter, func.__get__ (a callable running user code)
+            if 'property' not in LAT.bases:
+                LAT.add('property', ['object'])
+            pobj = st.sym_obj('func', 'property'); getter = st.sym_obj('getter', 'function'); st.wr(pobj, '__get__', getter); st.wr(pobj, 'fget', getter)     # either spelling reaches the user's getter
+            func_arg, func = pobj, getter
+        else:
+            func = st.sym_obj('func', 'function'); func_arg = func
         for s, oc in norm(ex.block(node.body, st)):
-            n += 1
-            inf = s.info(oc[1]) if oc[0] == 'return' else None
-            ok = isinstance(inf, Bound) and inf.kind == 'closure' and inf.name == 'func_decoration'
-            obl.append(Obl('C01/%s/returns_func_decoration' % inner, ('C01', 'C04'), s, z3.BoolVal(bool(ok)), oc))
-            if not ok:
-                continue
-            for s2, r2 in ex.call_value(s.copy(), oc[1], [func], {}, node):
-                n += 1
-                i2 = s2.info(r2[1]) if r2[0] == 'val' else None
-                ok2 = isinstance(i2, Bound) and i2.kind == 'closure' and i2.name == 'decorated_function'
-                cl = z3.BoolVal(bool(ok2))
-                if ok2:
-                    # the wrapper's free variables resolve (lexically) to the decorator's parameters and the decorated function
-                    fid = i2.fid; vals = {}
-                    def look(nm, fid=fid):
-                        f_ = fid
-                        while f_ is not None:
-                            if nm in s2.frames[f_]: return s2.frames[f_][nm]
-                            f_ = s2.fparent[f_]
-                        return None
-                    cl = z3.And(cl, look('func') == func, look('self') == selfv, *[look(p) == fr[p] for p in wrapper_free if look(p) is not None])
-                    cl = z3.And(cl, z3.BoolVal(all(look(p) is not None for p in wrapper_free)))
-                obl.append(Obl('C01/%s/wrapper_closes_over_exactly_the_given_configuration_and_function' % inner, ('C01', 'C04', 'C06', 'C02', 'C03'), s2, cl, r2))
+              n += 1
+              inf = s.info(oc[1]) if oc[0] == 'return' else None
+              ok = isinstance(inf, Bound) and inf.kind == 'closure' and inf.name == 'func_decoration'
+              obl.append(Obl('C01/%s/returns_func_decoration' % inner, ('C01', 'C04'), s, z3.BoolVal(bool(ok)), oc))
+              if not ok:
+                  continue
+              for s2, r2 in ex.call_value(s.copy(), oc[1], [func_arg], {}, node):
+                  n += 1
+                  if as_property and r2[0] == 'val':
+                      # decorating a property returns a property again, whose getter is the wrapper
+                      obl.append(Obl('C01/%s/property_in_property_out' % inner, ('C01', 'C04'), s2, z3.And(Val.is_ref(r2[1]), TYP(Val.addr(r2[1])) == K('property')), r2))
+                      r2 = ('val', s2.rd(r2[1], 'fget'))
+                  i2 = s2.info(r2[1]) if r2[0] == 'val' else None
+                  ok2 = isinstance(i2, Bound) and i2.kind == 'closure' and i2.name == 'decorated_function'
+                  cl = z3.BoolVal(bool(ok2))
+                  if ok2:
+                      # the wrapper's free variables resolve (lexically) to the decorator's parameters and the decorated function
+                      fid = i2.fid; vals = {}
+                      def look(nm, fid=fid):
+                          f_ = fid
+                          while f_ is not None:
+                              if nm in s2.frames[f_]: return s2.frames[f_][nm]
+                              f_ = s2.fparent[f_]
+                          return None
+                      cl = z3.And(cl, look('func') == func, look('self') == selfv, *[look(p) == fr[p] for p in wrapper_free if look(p) is not None])
+                      cl = z3.And(cl, z3.BoolVal(all(look(p) is not None for p in wrapper_free)))
+                  obl.append(Obl('C01/%s/wrapper_closes_over_exactly_the_given_configuration_and_function' % inner, ('C01', 'C04', 'C06', 'C02', 'C03'), s2, cl, r2))
     return infos, obl, {'paths': n, 'forks': 0}
 
 
